@@ -222,6 +222,9 @@ def getattr_class(I, cls, name):
     ov = class_overrides(ctx, cls)
     if name in ov:
         return ov[name]
+    h = I.E.externals.get("classattr:%s.%s" % (cls.key, name))
+    if h is not None:
+        return h(I)          # class-level state with a model supplied by a sidecar
     if name in ("__name__", "__qualname__"):
         return cls.name
     if name == "__mro__":
